@@ -128,6 +128,9 @@ def run_case(ctx, g, rng):
     n = rng.randint(1, 4)
     d = rng.choice([":", ":", ":", "/", "::", "_"])
     alpha = ALPHA + (["obo:go", "x:"] if d != ":" else ["a.b", "a/b"])
+    if rng.random() < 0.2:
+        alpha = alpha + [x for x in gen.hostile(rng, 3, exclude=(d,)) if x not in alpha and x != ""]
+        S.counters["wl:pools-seasoned"] += 1
     names = rng.sample(alpha, k=len(alpha))
     if rng.random() < 0.2:
         names.insert(rng.randrange(max(1, len(names) - 4), len(names) + 1), "")  # the default namespace as a (soon) known name
